@@ -136,3 +136,12 @@ where
         }
     }
 }
+
+// verification hook (guard: cfg(kani), set only by `cargo kani`): lets the harness module reach private parser modules
+#[cfg(kani)]
+pub(crate) mod verif_reexport {
+    pub use super::bounds::{check_bounds, get_bounded_slice};
+    pub use super::direct::parse_direct_content;
+    pub use super::header::parse_header;
+    pub use super::jpeg::parse_jpeg_content;
+}
